@@ -17,6 +17,95 @@ Proof.
   pstep. rewrite Hz. apply HQ; [exact Hz|apply bytes_ok_rd; exact Hd].
 Qed.
 
+(* the same, keeping track of the position (it stays inside the stream) *)
+Lemma read_full_spec2 d size p (Q : list Z -> Z -> Prop) : bytes_ok d -> 0 <= p <= zlen d -> 0 <= size < 4294967296 ->
+  (forall r, zlen r = size -> bytes_ok r -> p + size <= zlen d -> Q r (p + size)) -> pspecE EioM (id3_read_full size) d p Q.
+Proof.
+  intros Hd Hp Hs HQ. unfold id3_read_full. destruct (size <? 0) eqn:E; [lia|].
+  pstep. pstep. pstep; [|apply pspecE_raise; right; reflexivity].
+  assert (Hz : zlen r = size) by (apply Z.eqb_eq; assumption).
+  pstep. rewrite Hz. apply HQ; [exact Hz|apply bytes_ok_rd; exact Hd|lia].
+Qed.
+
+(* chunk.replace(b"\xff\x00", b"\xff") drops at most every second byte *)
+Lemma unstuff_props : forall n l, (length l <= n)%nat ->
+  zlen (id3_unstuff l) <= zlen l /\ zlen l <= 2 * zlen (id3_unstuff l) /\ (bytes_ok l -> bytes_ok (id3_unstuff l)).
+Proof.
+  induction n as [|n IH]; intros l Hn.
+  - destruct l; [|cbn in Hn; lia]. cbn. repeat split; [lia|lia|auto].
+  - destruct l as [|a t]; [cbn; repeat split; [lia|lia|auto]|].
+    cbn [length] in Hn. cbn [id3_unstuff].
+    assert (Ht : zlen (id3_unstuff t) <= zlen t /\ zlen t <= 2 * zlen (id3_unstuff t) /\ (bytes_ok t -> bytes_ok (id3_unstuff t)))
+      by (apply IH; lia).
+    assert (Hplain : zlen (a :: id3_unstuff t) <= zlen (a :: t) /\ zlen (a :: t) <= 2 * zlen (a :: id3_unstuff t) /\
+                     (bytes_ok (a :: t) -> bytes_ok (a :: id3_unstuff t))).
+    { rewrite !zlen_cons. destruct Ht as (H1 & H2 & H3). repeat split; [lia|lia|].
+      intro Hb. inversion Hb; subst. constructor; [assumption|apply H3; assumption]. }
+    destruct (a =? 255); [|exact Hplain].
+    destruct t as [|b t']; [exact Hplain|].
+    destruct b as [|pb|pb]; [|exact Hplain|exact Hplain].
+    cbn [length] in Hn.
+    destruct (IH t' ltac:(lia)) as (H1 & H2 & H3).
+    rewrite !zlen_cons. repeat split; [lia|lia|].
+    intro Hb. inversion Hb as [|x1 l1 Ha Hb1]; subst. inversion Hb1; subst. constructor; [assumption|apply H3; assumption].
+Qed.
+Lemma unstuff_le l : zlen (id3_unstuff l) <= zlen l. Proof. apply (unstuff_props (length l) l); lia. Qed.
+Lemma unstuff_half l : zlen l <= 2 * zlen (id3_unstuff l). Proof. apply (unstuff_props (length l) l); lia. Qed.
+Lemma unstuff_bytes l : bytes_ok l -> bytes_ok (id3_unstuff l). Proof. apply (unstuff_props (length l) l); lia. Qed.
+
+Lemma bytes_ok_app l1 l2 : bytes_ok l1 -> bytes_ok l2 -> bytes_ok (l1 ++ l2).
+Proof. unfold bytes_ok. intros. apply Forall_app. split; assumption. Qed.
+
+(* _read_unsynched: what is still missing at least halves per round, so the fuel is never exhausted; it returns exactly
+   `size` bytes and a non-negative count, or fails like read_full *)
+Lemma read_unsynched_spec d : bytes_ok d -> zlen d < 4611686018427387904 ->
+  forall fuel size data consumed p (Q : list Z * Z -> Z -> Prop),
+  0 <= p <= zlen d -> 0 <= size < 4294967296 -> zlen data <= size -> bytes_ok data -> 0 <= consumed <= p ->
+  size - zlen data < 2 ^ (Z.of_nat fuel - 1) ->
+  (forall r c q, zlen r = size -> bytes_ok r -> 0 <= c <= q -> 0 <= q <= zlen d -> Q (r, c) q) ->
+  pspecE EioM (id3_read_unsynched fuel size data consumed) d p Q.
+Proof.
+  intros Hd Hl. induction fuel as [|f IH]; intros size data consumed p Q Hp Hs Hdl Hdb Hc Hf HQ.
+  - exfalso. change (Z.of_nat 0 - 1) with (-1) in Hf. rewrite Z.pow_neg_r in Hf by lia. lia.
+  - cbn [id3_read_unsynched]. destruct (zlen data <? size) eqn:E.
+    + apply Z.ltb_lt in E. pose proof (zlen_nonneg data) as Hdn. pstep.
+      apply read_full_spec2; [exact Hd|lia|lia|]. intros chunk Hck Hcb Hpos. cbv beta.
+      pose proof (zlen_nonneg chunk) as Hcn.
+      pstep. apply pspecE_post with (Q := fun c q => 0 <= c <= q /\ 0 <= q <= zlen d).
+      { pstep.
+        - pstep. pstep. pstep.
+          + match goal with H : list_eqb _ _ = true |- _ => apply list_eqb_spec in H; rewrite H in * end.
+            change (zlen [0]) with 1 in *. pstep. lia.
+          + pstep. pstep. pstep. lia.
+        - pstep. lia. }
+      intros c q [Hc' Hq]. cbv beta.
+      pose proof (unstuff_le chunk) as U1. pose proof (unstuff_half chunk) as U2.
+      apply IH; try assumption.
+      * rewrite zlen_app. lia.
+      * apply bytes_ok_app; [assumption|apply unstuff_bytes; assumption].
+      * rewrite zlen_app.
+        assert (Hf0 : Z.of_nat f = 0 \/ 1 <= Z.of_nat f) by lia. destruct Hf0 as [Hf0|Hf0].
+        -- exfalso. replace (Z.of_nat (S f) - 1) with 0 in Hf by lia. change (2 ^ 0) with 1 in Hf. lia.
+        -- replace (Z.of_nat (S f) - 1) with (Z.succ (Z.of_nat f - 1)) in Hf by lia.
+           rewrite Z.pow_succ_r in Hf by lia. lia.
+    + apply Z.ltb_ge in E. pstep. apply HQ; try assumption; lia.
+Qed.
+
+Lemma read_ext_spec d u size p (Q : list Z * Z -> Z -> Prop) : bytes_ok d -> zlen d < 4611686018427387904 ->
+  0 <= p <= zlen d -> 0 <= size < 4294967296 ->
+  (forall r c q, zlen r = size -> bytes_ok r -> 0 <= c <= q -> 0 <= q <= zlen d -> Q (r, c) q) ->
+  pspecE EioM (id3_read_ext u size) d p Q.
+Proof.
+  intros Hd Hl Hp Hs HQ. unfold id3_read_ext. destruct u.
+  - apply read_unsynched_spec; try assumption.
+    + change (zlen []) with 0. lia.
+    + constructor.
+    + lia.
+    + change (zlen []) with 0. replace (2 ^ (Z.of_nat 33 - 1)) with 4294967296 by reflexivity. lia.
+  - pstep. apply read_full_spec2; [exact Hd|lia|lia|]. intros r Hr Hrb Hpos. cbv beta. pstep.
+    apply HQ; try assumption; lia.
+Qed.
+
 Theorem id3header_total d : c04_input d -> total (id3header_load d).
 Proof.
   intros [Hb Hl]. unfold id3header_load. eapply total_prun with (Q := fun _ _ => True).
@@ -28,19 +117,19 @@ Proof.
   cbv zeta.
   repeat (pstep; try (apply pspecE_raise; left; reflexivity); [idtac]).
   pstep; [|psteps; exact I].
-  pstep. apply read_full_spec; [exact Hb|lia|lia|]. intros ext Hext Hextb. cbv beta.
-  pstep. apply pspecE_post with (Q := fun x q => snd x < 4294967296 /\ 0 <= q <= zlen d + 16).
+  pstep. apply read_ext_spec; [exact Hb|exact Hl|lia|lia|]. intros ext consumed q0 Hext Hextb Hcons Hq0. cbv beta iota.
+  pstep. apply pspecE_post with (Q := fun x q => snd (fst x) < 4294967296 /\ 0 <= q <= zlen d).
   { pstep.
-    - psteps. cbn [snd]. lia.
+    - psteps. cbn [fst snd]. lia.
     - pstep.
-      + pstep; try (apply pspecE_raise; left; reflexivity). pstep. cbn [snd].
+      + pstep; try (apply pspecE_raise; left; reflexivity). pstep. cbn [fst snd].
         pose proof (bpi7_bound ext ltac:(lia)). lia.
-      + pstep. apply pspecE_unpack_be; [exact Hext|]. cbv beta. pstep. cbn [snd].
+      + pstep. apply pspecE_unpack_be; [exact Hext|]. cbv beta. pstep. cbn [fst snd].
         pose proof (be_decode_bound ext Hextb) as B. rewrite Hext in B. change (256 ^ 4) with 4294967296 in B. lia. }
-  intros [flags extsize] q. cbn [snd]. intros [Hes Hq]. cbv beta.
+  intros [[flags extsize] consumed'] q. cbn [fst snd]. intros [Hes Hq]. cbv beta iota.
   pstep; [apply pspecE_raise; left; reflexivity|].
   match goal with H : (extsize <? 0) = false |- _ => apply Z.ltb_ge in H end.
-  pstep. apply read_full_spec; [exact Hb|lia|lia|]. intros extdata _ _. cbv beta. psteps. exact I.
+  pstep. apply read_ext_spec; [exact Hb|exact Hl|lia|lia|]. intros extdata extconsumed q1 _ _ _ _. cbv beta iota. psteps. exact I.
 Qed.
 
 (* determine_bpi never raises: the slice it unpacks always has its 10 bytes, and len + 1 rounds suffice *)
